@@ -1,5 +1,5 @@
 SPECIFICATION TraceSpec
 CONSTRAINT HighWater
-INVARIANTS NoFabrication SameOperation Independent SkipJustified SkipHonoured ErrorReportedPerFetch DepsSettled ResponseWellFormed ErrorsNonEmpty Isolated RepeatClean
+INVARIANTS NoFabrication SameOperation Independent SkipJustified SkipHonoured ErrorReportedPerFetch DepsSettled ResponseWellFormed ErrorsNonEmpty Isolated RepeatClean DeniedNotSent ErrPathsPass ErrPathsNames ErrPathsExact
 POSTCONDITION TraceAccepted
 CHECK_DEADLOCK FALSE
